@@ -52,7 +52,7 @@ int dl_write_range(zckDL *dl, const char *at, size_t length) {
     return r;
 }
 /* sizes this unit can ask for: 1..MPX_T (carry-over save, concatenation), sizeof(regex_t) and, in the gen variants,
- * the two pattern strings (77..88 bytes with a 2-byte boundary); anything else is flagged */
+ * the two pattern strings (65 resp. 8 bytes + boundary + 1); anything else is flagged */
 #ifdef MPX_GEN
 #define MPX_AMAX 96
 #else
@@ -63,7 +63,7 @@ static char *alloc_exact(size_t n, int zero) {
 #define AX(k) case k: if(k <= MPX_AMAX || k == sizeof(regex_t)) { char *q = malloc(k); if(zero && q != NULL && k > 0) memset(q, 0, k); return q; } break;
     AX(0) AX(1) AX(2) AX(3) AX(4) AX(5) AX(6) AX(7) AX(8) AX(9) AX(10) AX(11) AX(12) AX(13) AX(14) AX(15) AX(16)
     AX(17) AX(18) AX(19) AX(20) AX(21) AX(22) AX(23) AX(24) AX(25) AX(26) AX(27) AX(28) AX(29) AX(30) AX(31) AX(32)
-    AX(64) AX(77) AX(78) AX(79) AX(80) AX(81) AX(82) AX(83) AX(84) AX(85) AX(86) AX(87) AX(88)
+    AX(64) AX(65) AX(66) AX(67) AX(68) AX(69) AX(70) AX(77) AX(78) AX(79) AX(80) AX(81) AX(82) AX(83) AX(84) AX(85) AX(86) AX(87) AX(88)
 #undef AX
     default: break;
     }
